@@ -4,11 +4,15 @@ Three clauses, three strengths (DESIGN.md section 4 / C20, assignment a10):
 
 (1) SHAPE STRICTNESS — PROVED on contracts extracted from the source on every run.
     coq/model/M_shape.v models vg.shape.check / check_value and polliwog/_common/shape.py; coq/proofs/P_shape.v
-    proves, for all shapes and contracts, that a contract succeeds iff every check's argument matches one of its
-    patterns and that a failing check raises exactly ValueError.  tools/astextract.py (fail closed) regenerates
+    proves, for all shapes and contracts, that a contract (in the MODEL of the shape-check layer) succeeds iff every
+    check's argument matches one of its patterns and that a failing check raises exactly ValueError.  tools/astextract.py (fail closed) regenerates
     build/C20/Contracts.v from $POLLIWOG_REPO on every run; `contracts_as_documented : extracted = expected`
-    (golden copy coq/corr/C20_expected.v, reviewed against the docstrings) is re-checked; props/C20.v proves
-    that every documented array argument of every public callable is constrained by a check.
+    (golden copy coq/corr/C20_expected.v, reviewed against the docstrings) is re-checked; props/C20.v proves that
+    every registered array argument reaches a shape check (C20_documented_arguments_are_checked -- "mentioned by
+    a check", which is not yet "strict") and that, over a stated finite universe of shapes for all argument
+    positions jointly, each callable's effective contract accepts EXACTLY the documented forms
+    (C20_contracts_accept_exactly_documented_forms).  Per-callable strictness for ALL shapes is proved for two
+    callables only; otherwise it is validated by the probe family.
 (2) STACKED = ROW BY ROW — VALIDATED (correspondence + oracle over the whole API, tools/api_registry.py); the
     per-function `_stacked_is_map` lemmas live with the other properties.
 (3) PURITY / DETERMINISM / REJECTION — VALIDATED, not proved (a Gallina function cannot mutate its argument):
@@ -37,28 +41,45 @@ warnings.filterwarnings("ignore", category=RuntimeWarning)   # degenerate probe 
 
 ID = "C20"
 REPO = os.environ.get("POLLIWOG_REPO", "/repo")
-N_CASES = {"quick": 1, "thorough": 4, "search": 1}   # = value seeds per probe; the probe family itself is fixed
+N_CASES = {"quick": 2, "thorough": 4, "search": 2}   # = value seeds per probe; the probe family itself is fixed
 SHARD = 150
 EXTRA_TARGETS = ["corr/C20_expected.vo", "proofs/P_shape.vo"]
-CASE_IMPORTS = [("PW.model", "M_shape"), ("PW.corr", "C20_expected")]
+CASE_IMPORTS = [("PW.model", "M_shape"), ("PW.model", "M_inflection"), ("PW.model", "M_array"), ("PW.corr", "C20_expected")]
 RULE = ("probe family derived from tools/api_registry.py: for every public callable (introspected; a callable "
         "without a registry entry fails the check) every documented form with k in {2,3}, and for every array "
         "argument position the mutations wrong trailing dimension / extra axis front / extra axis back / dropped "
         "axis / mismatched stack length; stacked-vs-row-by-row cases with k in {0,1,3}; direct probes of the shape "
-        "helpers; values on dyadic grids from the seeded PRNG; non-trivial = the call returned (no exception); "
+        "helpers; 52 cases for the extra callables inflection_points / point_of_max_acceleration / find_repeats / "
+        "find_changes (0..12 points, uniform exact and non-uniform spacing, straight lines, kinks, falling curves); "
+        "values on dyadic grids from the seeded PRNG; non-trivial = the call returned (no exception); "
         "distinct by hash of the case")
 TRUSTED = ["Coq 8.16.1 kernel, vm_compute (golden-contract equality, finite tables, correspondence evaluation)",
-           "no axioms are used by props/C20.v (Print Assumptions: closed under the global context)",
+           "axioms (Print Assumptions of props/C20.v): the shape theorems use none; the `C20_x_` theorems about the extra "
+           "callables are over Coq's Reals (ClassicalDedekindReals.sig_forall_dec, sig_not_dec, "
+           "FunctionalExtensionality.functional_extensionality_dep, Classical_Prop.classic)",
+           "extra callables: kernels run NumPy's own np.gradient code object with np.empty_like keeping dtype=object "
+           "(tools/props/C20.py _object_gradient) through tools/symtrace.py; decisions of the inexact correspondence "
+           "cases are compared only away from their thresholds (band 1e-6), exactly for uniform power-of-two spacing",
            "tools/astextract.py: fail-closed AST extraction of the shape checks (grammar in its docstring); what it "
            "cannot see: checks performed by callees (covered by the delegation table, validated by probing), value "
            "checks such as `if k < 1: raise ValueError`, and whether control reaches the checks through a raise",
            "coq/corr/C20_expected.v: golden contracts / delegation / documented-argument tables, hand-reviewed "
            "against the docstrings",
            "tools/api_registry.py: documented single/stacked forms, hand-written from the docstrings",
-           "clause (1) shape strictness: PROVED on the extracted contracts; clause (2) stacked = row by row and "
-           "clause (3) purity / determinism / rejection: VALIDATED on the probe family only",
+           "clause (1) shape strictness: the shape-check LAYER is proved for all shapes; per callable, `accepts exactly the "
+           "documented forms` is proved over a stated finite shape universe (and for all k, m for two callables) and "
+           "otherwise validated by probes; clause (2) stacked = row by row and clause (3) purity / determinism / "
+           "rejection: VALIDATED on the probe family only",
            "NumPy, vg"]
-ASSUMPTIONS = ["clause (1) is a proof about the shape-check layer (M_shape.v) applied to the contracts extracted from "
+ASSUMPTIONS = ["SPECIFICATION JUDGEMENT CALL: `one item against a stack` -- points (3,) with plane_equations (m,4) for "
+               "signed_distance_to_plane / project_point_to_plane / mirror_point_across_plane, and points (3,) with "
+               "reference_points_of_lines / vectors_along_lines (m,3) for project_point_to_line -- is NOT in the docstrings; "
+               "the registry lists it as documented because the code admits it explicitly (`-1 if k is None else k`) and "
+               "computes it row by row; read strictly, it is an undocumented accepted form",
+               "per-callable strictness (`accepted shapes = documented forms`) is PROVED only over the finite shape universe "
+               "stated in C20_contracts_accept_exactly_documented_forms (all argument positions jointly) and for all k, m "
+               "for two callables; beyond that it is validated by the probe family",
+               "clause (1) is a proof about the shape-check layer (M_shape.v) applied to the contracts extracted from "
                "the source; that NumPy code after the checks does not reject or broadcast further is validated by "
                "probing, not proved",
                "clauses (2) and (3) are validated on sampled values (dyadic grids) for a fixed probe family of shapes; "
@@ -68,6 +89,9 @@ ASSUMPTIONS = ["clause (1) is a proof about the shape-check layer (M_shape.v) ap
                "model them as state machines); for them only the arguments are required to be unchanged",
                "rejection is required for ndarray arguments of a wrong shape; non-array arguments (None, lists, Python "
                "numbers) are outside the property text and only probed for the shape helpers themselves"]
+
+# theorems that only pin the shape of the model (true of the model by unfolding); reported separately by the driver
+DEFINITIONAL = ["C20_x_too_few_points"]
 
 INT_KINDS = {"faces", "faces8", "insidx", "segidx", "breaks"}
 BOOL_KINDS = {"mask", "facemask"}
@@ -332,8 +356,11 @@ def in_forms(e, shapes, b0):
 def mutations(shape):
     shape = tuple(shape)
     out = []
+    out.append(("zero_d", ()))
     if len(shape) >= 1:
         out.append(("trailing", shape[:-1] + (shape[-1] + 1,)))
+        if shape[-1] >= 1:
+            out.append(("trailing_minus", shape[:-1] + (shape[-1] - 1,)))
         out.append(("dropped_axis", shape[:-1]))
         out.append(("length", (shape[0] + 1,) + shape[1:]))
         out.append(("dropped_first_axis", shape[1:]))
@@ -425,7 +452,7 @@ def probes_for(e, seeds, kvals):
     return cases
 
 
-STACK_REPS = 3   # value seeds per stacked-vs-row-by-row comparison (rows must differ: generators give distinct rows)
+STACK_REPS = 2   # value seeds per stacked-vs-row-by-row comparison (rows must differ: generators give distinct rows)
 
 HELPER_SHAPES = [None, "number", (), (3,), (4,), (2,), (0, 3), (1, 3), (2, 3), (2, 4), (3, 3), (2, 3, 3), (3, 2, 3), (2, 3, 1)]
 
@@ -434,11 +461,171 @@ def helper_cases():
     out = []
     for sh in HELPER_SHAPES:
         for h in ({"fn": "check", "pattern": [-1, 3]}, {"fn": "check", "pattern": [3]}, {"fn": "check_value", "pattern": [-1, 3, 3]},
-                  {"fn": "check_shape_any", "patterns": [[3], [-1, 3]]}, {"fn": "check_shape_any", "patterns": [[4], [-1, 4]]},
+                  {"fn": "check_shape_any", "patterns": [[3], [-1, 3]]}, {"fn": "check_shape_any", "patterns": [[4], [-1, 4]]}, {"fn": "check_shape_any", "patterns": [[-1, 3]]},
                   {"fn": "columnize", "pattern": [-1, 3]}, {"fn": "columnize", "pattern": [-1, 3, 3]},
                   {"fn": "columnize", "pattern": [-1]}):
             out.append({"kind": "helper", "helper": h, "shape": list(sh) if isinstance(sh, tuple) else sh})
     return out
+
+
+# ---- extra callables: polyline._inflection_points and polyline._array ------------------------------------------
+AXES = [([0.0, 1.0, 0.0], [1.0, 0.0, 0.0]), ([0.0, 0.0, 1.0], [0.0, 1.0, 0.0]), ([0.0, 2.0, 0.0], [0.5, 0.0, 0.0]),
+        ([1.0, 0.0, 0.0], [0.0, 0.0, 1.0])]
+
+
+def _curve(rng, n, exact, flavour):
+    """n points with strictly increasing run coordinate (dyadic); exact: uniform power-of-two spacing"""
+    rise_ax, run_ax = rng.choice(AXES)
+    h = rng.choice([0.5, 1.0, 2.0, 0.25])
+    x, xs = rng.randint(-8, 8) / 2, []
+    for i in range(n):
+        xs.append(x)
+        x += h if exact else rng.choice([0.5, 1.0, 1.5, 2.0, 3.0, 0.25])
+    if flavour == "line":                      # zeros in fd2 everywhere
+        a, b = rng.randint(-4, 4) / 2, rng.randint(-4, 4) / 2
+        ys = [a * t + b for t in xs]
+    elif flavour == "falling":                 # no valid point: first differences negative
+        ys, y = [], 4.0
+        for i in range(n):
+            ys.append(y)
+            y -= rng.randint(1, 6) / 2
+    elif flavour == "rising":
+        ys, y = [], -4.0
+        for i in range(n):
+            ys.append(y)
+            y += rng.randint(1, 8) / 2
+    elif flavour == "kinked":                  # piecewise linear: exact zeros and ties in fd2
+        ys, y, sl = [], 0.0, rng.randint(-3, 3) / 2
+        for i in range(n):
+            ys.append(y)
+            if rng.random() < 0.35:
+                sl = rng.randint(-4, 4) / 2
+            y += sl * ((xs[i + 1] - xs[i]) if i + 1 < n else 1.0)
+    else:
+        ys = [rng.randint(-8, 8) / 2 for _ in range(n)]
+    ri = [j for j in range(3) if run_ax[j] != 0][0]
+    si = [j for j in range(3) if rise_ax[j] != 0][0]
+    oi = [j for j in range(3) if j not in (ri, si)][0]
+    pts = []
+    for t, y in zip(xs, ys):
+        p = [0.0, 0.0, 0.0]
+        p[ri], p[si], p[oi] = t / run_ax[ri], y / rise_ax[si], rng.randint(-4, 4) / 2
+        pts.append(p)
+    return pts, rise_ax, run_ax
+
+
+def extra_cases(rng, reps):
+    out = []
+    for rep in range(reps):
+        for kind in ("inflection", "maxacc"):
+            for n, exact, fl in ((0, True, "wiggle"), (1, True, "wiggle"), (2, True, "rising"), (3, True, "wiggle"),
+                                 (4, True, "line"), (5, True, "kinked"), (6, True, "kinked"), (7, True, "wiggle"),
+                                 (8, True, "falling"), (6, True, "rising"), (9, True, "kinked"), (5, True, "wiggle"),
+                                 (4, False, "wiggle"), (5, False, "wiggle"), (6, False, "rising"), (7, False, "wiggle"),
+                                 (8, False, "falling"), (9, False, "wiggle"), (12, False, "wiggle"), (3, False, "rising")):
+                pts, rise_ax, run_ax = _curve(rng, n, exact, fl)
+                out.append({"kind": kind, "exact": exact, "flavour": fl, "points": pts, "rise": rise_ax, "run": run_ax})
+        for wrap in (False, True):
+            for n in (0, 1, 2, 3, 5, 8):
+                arr = [float(rng.randint(0, 2)) for _ in range(n)]
+                out.append({"kind": "find", "arr": arr, "wrap": wrap})
+    return out
+
+
+def run_extra(c):
+    from polliwog.polyline import inflection_points, point_of_max_acceleration
+    from polliwog.polyline._array import find_changes, find_repeats
+    if c["kind"] == "find":
+        arr = np.array(c["arr"], dtype=np.float64)
+        before = arr.copy()
+
+        def go():
+            rep, chg = find_repeats(arr, wrap=c["wrap"]), find_changes(arr, wrap=c["wrap"])
+            return {"outcome": "ok", "rep": [bool(x) for x in rep], "chg": [bool(x) for x in chg],
+                    "args_unchanged": bool(np.array_equal(before, arr)),
+                    "deterministic": [bool(x) for x in find_repeats(arr, wrap=c["wrap"])] == [bool(x) for x in rep]}
+        return call_impl(go)
+    pts = np.array(c["points"], dtype=np.float64).reshape(-1, 3)
+    rise, run = np.array(c["rise"]), np.array(c["run"])
+    before = (pts.copy(), rise.copy(), run.copy())
+    fn = inflection_points if c["kind"] == "inflection" else point_of_max_acceleration
+
+    def rows_to_indices(rows):
+        idx = []
+        for r in np.asarray(rows).reshape(-1, 3):
+            hits = [i for i in range(len(pts)) if np.array_equal(pts[i], r)]
+            idx.append(hits[0] if len(hits) == 1 else -1)
+        return idx
+
+    def go():
+        r1 = fn(pts, rise, run)
+        r2 = fn(pts, rise, run)
+        o = {"outcome": "ok", "args_unchanged": all(np.array_equal(a, b) for a, b in zip(before, (pts, rise, run))),
+             "deterministic": snap(r1) == snap(r2)}
+        if c["kind"] == "inflection":
+            o["indices"] = rows_to_indices(r1)
+        else:
+            o["index"] = None if r1 is None else rows_to_indices(r1)[0]
+        return o
+    return call_impl(go)
+
+
+def coq_extra(c, o):
+    from common import coq_bool, coq_list, coq_nat, q, qv
+    if c["kind"] == "find":
+        if "raise" in o:
+            return "CFind [] false [true] []"   # no call of find_* is expected to raise: make the case fail
+        return "CFind %s %s %s %s" % (coq_list(q(x) for x in c["arr"]), coq_bool(c["wrap"]),
+                                      coq_list(coq_bool(b) for b in o["rep"]), coq_list(coq_bool(b) for b in o["chg"]))
+    pts = coq_list(qv(p) for p in c["points"])
+    head = "%s %s %s %s %s" % ("CInflection" if c["kind"] == "inflection" else "CMaxAcc", coq_bool(c["exact"]), pts,
+                               qv(c["rise"]), qv(c["run"]))
+    if "raise" in o:
+        known = {"ValueError", "IndexError", "KeyError", "AttributeError", "TypeError", "AssertionError", "ZeroDivisionError"}
+        return "%s (Raise %s)" % (head, o["raise"] if o["raise"] in known else "OtherError")
+    if c["kind"] == "inflection":
+        return "%s (Ok %s)" % (head, coq_list(coq_nat(i) for i in o["indices"]))
+    return "%s (Ok %s)" % (head, "None" if o["index"] is None else "(Some %s)" % coq_nat(o["index"]))
+
+
+def oracle_extra(c, o):
+    if "raise" in o:
+        # fewer than two points: point_of_max_acceleration raises ValueError; inflection_points fails inside
+        # np.gradient with IndexError (mirrored by the model; the property text does not speak about it)
+        if c["kind"] == "maxacc" and len(c["points"]) < 2 and o["raise"] == "ValueError":
+            return None
+        if c["kind"] == "inflection" and len(c["points"]) < 2 and o["raise"] in ("IndexError", "ValueError"):
+            return None
+        return "%s raised %s: %s" % (c["kind"], o["raise"], o.get("msg"))
+    if c["kind"] != "find" and len(c["points"]) < 2:
+        return "%s accepted fewer than two points" % c["kind"]
+    if not o["args_unchanged"]:
+        return "%s modified an array argument" % c["kind"]
+    if not o["deterministic"]:
+        return "%s called twice gave different results" % c["kind"]
+    if c["kind"] == "inflection":
+        idx = o["indices"]
+        if any(i < 0 for i in idx):
+            return "inflection_points returned a row that is not an input row"
+        if idx != sorted(set(idx)) or (idx and idx[-1] >= len(c["points"]) - 1):
+            return "inflection_points rows are not increasing input rows before the last one: %r" % idx
+    elif c["kind"] == "maxacc":
+        i = o["index"]
+        if i is not None and not (0 < i < len(c["points"]) - 1):
+            return "point_of_max_acceleration returned row %r, which is not an interior input row" % i
+    else:
+        n = len(c["arr"])
+        if len(o["rep"]) != n or len(o["chg"]) != n:
+            return "find_repeats / find_changes: output length %d differs from input length %d" % (len(o["rep"]), n)
+        if c["wrap"]:
+            if any(a == b for a, b in zip(o["rep"], o["chg"])):
+                return "find_changes is not the negation of find_repeats"
+        elif o["rep"][0] or o["chg"][0] or any(a == b for a, b in zip(o["rep"][1:], o["chg"][1:])):
+            return "find_repeats / find_changes (no wrap): first entry not False or not complementary afterwards"
+    return None
+
+
+EXTRA_KINDS = ("inflection", "maxacc", "find")
 
 
 def gen_cases(rng, n, tier):
@@ -447,7 +634,7 @@ def gen_cases(rng, n, tier):
         raise RuntimeError("public callables without a registry entry (fail closed): %s" % miss)
     seeds = [rng.randrange(1 << 30) for _ in range(max(1, n))]
     kvals = [2] if tier == "quick" else [2, 3]
-    cases = helper_cases()
+    cases = helper_cases() + extra_cases(random.Random(rng.randrange(1 << 30)), 1 if tier != "thorough" else 4)
     for e in A.R:
         cases.extend(probes_for(e, seeds, kvals))
     return cases
@@ -527,6 +714,8 @@ def run_helper(c):
 def run_impl(c):
     if c["kind"] == "helper":
         return run_helper(c)
+    if c["kind"] in EXTRA_KINDS:
+        return run_extra(c)
     e = A.BY_PUBLIC[c["callable"]]
 
     def setup():
@@ -684,6 +873,8 @@ def coq_case(c, o):
 
 
 def _coq_case(c, o):
+    if c["kind"] in EXTRA_KINDS:
+        return coq_extra(c, o)
     if c["kind"] == "helper":
         h = c["helper"]
         if h["fn"] in ("check", "check_value"):
@@ -708,6 +899,8 @@ def _coq_case(c, o):
 def oracle(c, o):
     if c["kind"] == "helper":
         return None
+    if c["kind"] in EXTRA_KINDS:
+        return oracle_extra(c, o)
     e = A.BY_PUBLIC[c["callable"]]
     if not o.get("args_unchanged", True):
         return "%s modified an array argument" % e.public
@@ -729,10 +922,22 @@ def oracle(c, o):
 
 
 def classify(c, o, failure, disagrees):
-    if c["kind"] == "helper" or not failure:
+    if c["kind"] == "find" and failure and "output length" in failure and not c["arr"] and not c["wrap"]:
+        return "polyline._array.find:empty_nowrap_length"
+    if c["kind"] == "helper" or c["kind"] in EXTRA_KINDS or not failure:
         return None
     e = A.BY_PUBLIC[c["callable"]]
     if "not a documented form" in failure:
+        # the listed Rodrigues finding is exactly: an array with THREE elements whose shape is not (3,), (3,1), (1,3)
+        # was ACCEPTED (and, where the callable is modelled, the model predicts that acceptance).  Anything else on
+        # those callables -- other sizes accepted, another exception class, a model/implementation disagreement --
+        # gets a key that is not a known finding and is reported.
+        if e.public in ("transform.rodrigues_vector_to_rotation_matrix", "transform.cv2_rodrigues"):
+            sh = c["shapes"].get("r")
+            size = int(np.prod(sh)) if isinstance(sh, list) else None
+            listed = (o.get("outcome") == "ok" and size == 3 and tuple(sh) not in ((3,), (3, 1), (1, 3))
+                      and not disagrees)
+            return "%s:%s" % (e.public, "off_contract_not_rejected" if listed else "other_off_contract_behaviour")
         return "%s:off_contract_not_rejected" % e.public
     if "differs from the result for that item alone" in failure or "empty stack" in failure or "row-by-row" in failure:
         return "%s:stack_rows" % e.public
@@ -742,7 +947,7 @@ def classify(c, o, failure, disagrees):
 # =============================================================================================================
 # extraction hook and the golden-contract tie
 # =============================================================================================================
-def coq_tables(defs=("delegation", "documented_args", "external_contracts", "not_modelled")):
+def coq_tables(defs=("delegation", "documented_args", "external_contracts", "not_modelled", "documented_forms")):
     """Coq text of the delegation and documented-argument tables generated from the registry"""
     rows = []
     for e in sorted(A.R, key=lambda e: e.qual):
@@ -763,6 +968,17 @@ def coq_tables(defs=("delegation", "documented_args", "external_contracts", "not
     for e in sorted(A.R, key=lambda e: e.qual):
         if e.params:
             doc.append('  ("%s", [%s])' % (e.qual, "; ".join('"%s"' % a for a in e.params)))
+    def fsh(sh):
+        if sh is None:
+            return "FNone"
+        if sh == "number":
+            return "FNumber"
+        return "FArr [%s]" % "; ".join(('FSym "%s"' % sym(d)[0]) if isinstance(d, str) else "FInt %d" % d for d in sh)
+    frm = []
+    for e in sorted(A.R, key=lambda e: e.qual):
+        if e.params:
+            fs = ["[%s]" % "; ".join('("%s", %s)' % (a, fsh(f.get(a))) for a in e.params) for f in e.forms]
+            frm.append('  ("%s", [\n     %s])' % (e.qual, ";\n     ".join(fs)))
     ext = ";\n".join('  ("%s", [%s])' % (n, "; ".join(cs)) for n, cs in A.EXTERNAL)
     unm = "; ".join('"%s"' % e.qual for e in sorted(A.R, key=lambda e: e.qual) if e.params and not e.model)
     return ("Definition %s : list (string * list delegate) := [\n%s\n].\n\n"
@@ -770,19 +986,26 @@ def coq_tables(defs=("delegation", "documented_args", "external_contracts", "not
             "(* checks performed outside polliwog (vg), hand-written from site-packages/vg/core.py *)\n"
             "Definition %s : contracts := [\n%s\n].\n\n"
             "(* callables whose acceptance logic is not a sequence of shape checks (judged by the oracle only) *)\n"
-            "Definition %s : list string := [%s].\n"
-            % (defs[0], ";\n".join(rows), defs[1], ";\n".join(doc), defs[2], ext, defs[3], unm))
+            "Definition %s : list string := [%s].\n\n"
+            "(* the documented single / stacked forms of every registered array-taking callable (arguments in the order of\n"
+            "   documented_args; length symbols shared between arguments; minimum sizes are value checks and omitted) *)\n"
+            "Definition %s : list (string * list form) := [\n%s\n].\n"
+            % (defs[0], ";\n".join(rows), defs[1], ";\n".join(doc), defs[2], ext, defs[3], unm, defs[4], ";\n".join(frm)))
 
 
 def pre_build(bdir):
     miss = A.missing()
     if miss:
         raise RuntimeError("public callables without a registry entry (fail closed): %s" % miss)
+    unreg = A.unregistered_parameters()
+    if unreg:
+        raise RuntimeError("parameters of public callables registered neither as array nor as non-array "
+                           "(fail closed): %s" % unreg)
     astextract.write_contracts(REPO, os.path.join(bdir, "Contracts.v"))
     with open(os.path.join(bdir, "Registry.v"), "w") as f:
         f.write("(* generated from tools/api_registry.py -- do not edit *)\nFrom Coq Require Import List String.\n"
                 "From PW.model Require Import M_shape.\nImport ListNotations.\nLocal Open Scope string_scope.\n\n")
-        f.write(coq_tables(("gen_delegation", "gen_documented_args", "gen_external_contracts", "gen_not_modelled")))
+        f.write(coq_tables(("gen_delegation", "gen_documented_args", "gen_external_contracts", "gen_not_modelled", "gen_documented_forms")))
     for fn in ("Contracts.v", "Registry.v"):
         p = subprocess.run(["timeout", "120", "coqc", "-w", "-all", "-Q", os.path.join(VERIF, "coq"), "PW", "-Q", bdir, "Gen",
                             os.path.join(bdir, fn)], stdout=subprocess.PIPE, stderr=subprocess.STDOUT, text=True)
@@ -790,7 +1013,96 @@ def pre_build(bdir):
             raise RuntimeError("%s does not compile:\n%s" % (fn, p.stdout[-1500:]))
 
 
+# ---- traced kernels for the extra callables ------------------------------------------------------------------------
+# np.gradient allocates its output with dtype float64 whenever the input dtype is not inexact, so the tracer's object
+# arrays cannot pass through it unchanged.  The kernels therefore run NumPy's OWN gradient code object (same
+# bytecode, same globals) with a single substitution: `np.empty_like(f, dtype=...)` keeps dtype=object for object
+# arrays.  Nothing of the formula is re-implemented here.
+def _object_gradient():
+    import types
+    real = np.gradient.__wrapped__
+
+    class _NpObj:
+        def __getattr__(self, k):
+            return getattr(np, k)
+
+        @staticmethod
+        def empty_like(f, dtype=None, **kw):
+            if getattr(f, "dtype", None) == object:
+                return np.empty_like(f)
+            return np.empty_like(f, dtype=dtype, **kw)
+
+    g = dict(real.__globals__)
+    g["np"] = _NpObj()
+    fn = types.FunctionType(real.__code__, g, "gradient", real.__defaults__, real.__closure__)
+    fn.__kwdefaults__ = real.__kwdefaults__
+    return fn
+
+
+class _GradProxy:
+    def __init__(self, inner, grad):
+        self._inner, self._grad = inner, grad
+
+    def __getattr__(self, k):
+        return self._grad if k == "gradient" else getattr(self._inner, k)
+
+
+def _with_object_gradient(fname):
+    grad = _object_gradient()
+
+    def call(p, u, r):
+        import polliwog.polyline._inflection_points as M
+        orig = M.np
+        M.np = _GradProxy(orig, grad)
+        try:
+            return getattr(M, fname)(p, u, r)
+        finally:
+            M.np = orig
+    return call
+
+
+INFL_SCENARIOS = {
+    4: [[0.0, 0.0, 0.0], [1.0, 1.0, 0.5], [2.5, 0.5, 0.0], [3.0, 2.0, 1.0]],
+    5: [[0.0, 0.0, 0.0], [1.0, 2.0, 0.5], [2.5, 2.5, 0.0], [3.0, 1.0, 1.0], [5.0, 4.0, 0.5]],
+}
+UNFOLD = ("cbv -[Rplus Rminus Rmult Rdiv Ropp Rinv Rleb Rltb Reqb IZR]")
+
+
+def extra_kernels():
+    ks = []
+    for n, pts in INFL_SCENARIOS.items():
+        P = "[%s]" % "; ".join("V3 p%d p%d p%d" % (3 * i, 3 * i + 1, 3 * i + 2) for i in range(n))
+        for fname, short in (("inflection_points", "infl"), ("point_of_max_acceleration", "maxacc")):
+            call = _with_object_gradient(fname)
+            res = call(np.array(pts), np.array([0.0, 1.0, 0.0]), np.array([1.0, 0.0, 0.0]))
+            parr = np.array(pts)
+            if short == "infl":
+                idx = [[i for i in range(n) if np.array_equal(parr[i], row)][0] for row in res]
+                model = "inflection_indices ROps %s (V3 u0 u1 u2) (V3 r0 r1 r2) = [%s]" % (P, "; ".join("%d%%nat" % i for i in idx))
+                rows = idx
+                struct = {"shape": [len(idx), 3], "data": ["e"] * (3 * len(idx))}
+            else:
+                i = None if res is None else [i for i in range(n) if np.array_equal(parr[i], res)][0]
+                model = "max_acceleration_index ROps %s (V3 u0 u1 u2) (V3 r0 r1 r2) = %s" % (P, "None" if i is None else "Some %d%%nat" % i)
+                rows = [] if i is None else [i]
+                struct = None if i is None else {"shape": [3], "data": ["e"] * 3}
+            outs = "[%s]" % "; ".join("p%d" % (3 * i + j) for i in rows for j in range(3))
+            lemma = ("Lemma {T}_ok : forall {vars} : R, {T}_path ROps {vars} ->\n  %s /\\\n  {T} ROps {vars} = %s.\n"
+                     "Proof. intros {vars} Hpath. unfold {T}_path in Hpath; rops. split; [|reflexivity].\n"
+                     "  %s; rops.\n"
+                     "  (* every comparison the model makes is, term for term, one the code decided: rewrite with the path *)\n"
+                     "  repeat match type of Hpath with _ /\\ _ => let H := fresh \"Hp\" in destruct Hpath as [H Hpath]; try rewrite H end.\n"
+                     "  reflexivity. Qed." % (model, outs, UNFOLD))
+            ks.append(Kernel("%s%d" % (short, n), {"p": pts, "u": [0.0, 1.0, 0.0], "r": [1.0, 0.0, 0.0]}, call, lemma,
+                             imports=[("PW.model", "M_inflection")], expect_structure=struct, perturb=1e-6, timeout=240))
+    return ks
+
+
 def kernels():
+    return contract_kernels() + extra_kernels()
+
+
+def contract_kernels():
     lemma = """(* the contracts as they are in the source now are the reviewed golden contracts *)
 Definition differing : list string :=
   map fst (filter (fun nc => negb (contract_eqb (snd nc) (contract_of expected (fst nc)))) extracted) ++
@@ -801,7 +1113,8 @@ Proof. apply (dec_true (contracts_eq_dec extracted expected)). vm_compute. refle
 (* the delegation / documented-argument tables generated from tools/api_registry.py are the committed ones *)
 Lemma registry_tables_as_committed :
   gen_delegation = delegation /\\ gen_documented_args = documented_args /\\
-  gen_external_contracts = external_contracts /\\ gen_not_modelled = not_modelled.
+  gen_external_contracts = external_contracts /\\ gen_not_modelled = not_modelled /\\
+  gen_documented_forms = documented_forms.
 Proof. repeat split; vm_compute; reflexivity. Qed."""
     return [Kernel("contracts", {}, lambda: None, lemma,
                    imports=[("Coq", "String"), ("PW.model", "M_shape"), ("PW.proofs", "P_shape"), ("PW.corr", "C20_expected"), ("Gen", "Contracts"),
@@ -822,7 +1135,34 @@ def golden_text():
             "   `delegation` says which callee performs the checks for callables that do none themselves (each row is\n"
             "   validated by probing on every run); `documented_args` lists the array parameters each public callable\n"
             "   documents.  Both are mirrored from tools/api_registry.py and re-compared on every run. *)\n")
-    return head + body + "\n" + coq_tables()
+    return head + body + "\n" + coq_tables() + SPEC_TAIL
+
+
+SPEC_TAIL = """
+(* ---- specification vocabulary over these tables, used by the statements in props/C20.v ------------------------ *)
+Definition all_contracts : contracts := (expected ++ external_contracts)%list.
+
+(* every array argument a public callable documents reaches a shape check: of the callable itself, or of the callee it
+   hands the argument to (delegation table).  NOTE: "reaches a check" -- not "the accepted shapes are the documented ones" *)
+Definition strict_row (na : string * list string) : bool :=
+  mem (fst na) not_modelled || forallb (covered all_contracts delegation (fst na)) (snd na).
+
+Definition sd_name := "polliwog.plane._plane_functions.signed_distance_to_plane".
+Definition cp_name := "polliwog.segment._segment_functions.closest_point_of_line_segment".
+Definition rv_name := "polliwog.transform._rodrigues.rodrigues_vector_to_rotation_matrix".
+(* documented: "a 3x1 or 1x3 Rodrigues vector" (and the plain 3-vector) *)
+Definition rv_documented : list shape := [[3]; [3; 1]; [1; 3]].
+Definition off_contract (doc : list shape) (s : shape) : Prop := ~ In s doc.
+
+(* "accepts exactly the documented forms" is decided over the finite universe M_shape.universe, for all argument
+   positions jointly; receiver-dependent lengths are fixed (a polyline with 6 edges).  Exempt: the callables that are
+   not a sequence of shape checks, and the Rodrigues vector (known finding: flattened before the check). *)
+Definition forms_b0 : benv := [("self.num_e", Some 6)].
+Definition forms_exempt : list string := (rv_name :: not_modelled)%list.
+Definition names_of (n : string) : list string := match assoc documented_args n with Some l => l | None => [] end.
+Definition forms_row (nf : string * list form) : bool :=
+  mem (fst nf) forms_exempt || forms_agree all_contracts delegation forms_b0 (fst nf) (names_of (fst nf)) (snd nf).
+"""
 
 
 if __name__ == "__main__":
